@@ -26,9 +26,10 @@ TYPES = ['Text', 'Bool', 'Int', 'Numeric', 'Date', 'DateTime:America/New_York', 
 # makes of them (right-type values or alt-text).
 MENU = [None, '', 'abc', '12', '1.5', 'true', 'no', 0, 1, 2, -1, 2.5, 1.0e12, True, False,
         '2020-01-02', 1577923200, ['L', 'a', 'b'], ['L', 1, 2], ['L'], '[1,2]', '["a"]', 'x,y',
-        3000000000, ' 7 ', 'None', '2', '0', 'True', '2.5']   # texts that spell another menu value
+        3000000000, ' 7 ', 'None', '2', '0', 'True', '2.5',   # texts that spell another menu value
+        ['L', 7, 2], ['L', 7]]                                # row ids with no row in O (kept as they are)
 QUICK_MENU = [None, '', 'abc', '12', '1.5', 'true', 0, 2, 2.5, True, '2020-01-02', 1577923200,
-              ['L', 'a', 'b'], ['L', 1, 2], '[1,2]', 'None', '2', 'True']
+              ['L', 'a', 'b'], ['L', 1, 2], '[1,2]', 'None', '2', 'True', ['L', 7, 2]]
 
 
 def type_obj(t):
